@@ -105,7 +105,7 @@ var baseEnv = initBaseEnv(map[string]Extension{
 		EvalContextHandler: defaultContextHandler,
 	},
 	"pad": {
-		Func:               jlib.Pad,
+		Func:               pad,
 		UndefinedHandler:   defaultUndefinedHandler,
 		EvalContextHandler: contextHandlerPad,
 	},
@@ -461,6 +461,20 @@ func contextHandlerSubstringBeforeAfter(argv []reflect.Value) bool {
 	// one string argument, use the evaluation context as the first
 	// argument.
 	return len(argv) == 1 && jtypes.IsString(argv[0])
+}
+
+// maxPadWidth is the largest width the pad function accepts.
+// It is the limit the range operator puts on an array's size.
+const maxPadWidth = maxRangeItems
+
+// pad is jlib.Pad with a bound on the width. A string of
+// billions of characters cannot be built: strings.Repeat
+// panics or the process runs out of memory.
+func pad(s string, width int, chars jtypes.OptionalString) (string, error) {
+	if width > maxPadWidth || width < -maxPadWidth {
+		return "", errors.New("the second argument of the pad function is out of range")
+	}
+	return jlib.Pad(s, width, chars), nil
 }
 
 func contextHandlerPad(argv []reflect.Value) bool {
